@@ -184,6 +184,8 @@ class World:
         self.spelling = "dot"
         self.home_cwd = os.getcwd()
         self.budget = budget
+        self.extra_budget = 0          # allowance for exceptionally expensive texts written into this world
+        self.text_budget = 0           # allowance for the one text an analysis-level op is about to analyse
         self.steps_total = 0
         self.sim_seconds = 0.0
         self.closed = False
@@ -241,6 +243,9 @@ class World:
         if not self._parents_ok(path, True):
             return {"noop": "parent_is_file"}
         write_bytes(full, content_bytes(content), mtime_delta)
+        if isinstance(content, str):
+            from .corpus import CONTENTS
+            self.extra_budget += 8 * CONTENTS[content].get("steps", 0)
         return {}
 
     def op_delete(self, path):
@@ -531,8 +536,17 @@ class World:
         os.chdir(cwd)
         # bounded liveness: the budget grows with the tree (largest corpus text costs ~0.4 M
         # steps), so only a loop that does not terminate exhausts it
-        n_files = sum(1 for _r, is_dir in list_tree(self.root) if not is_dir) if self.budget >= STEP_BUDGET else 0
-        _steps_begin(max(self.budget, 600_000 * n_files))
+        n_files = total_bytes = 0
+        if self.budget >= STEP_BUDGET:
+            for r, is_dir in list_tree(self.root):
+                if not is_dir:
+                    n_files += 1
+                    try:
+                        total_bytes += os.path.getsize(os.path.join(self.root, r))
+                    except OSError:
+                        pass
+        # measured worst case of linear inputs: 64 steps per byte (a UTF-16 file read as Latin-1)
+        _steps_begin(max(self.budget, 600_000 * n_files, 250 * total_bytes) + self.extra_budget + self.text_budget)
         CTX.active = True
         try:
             with contextlib.redirect_stdout(out), contextlib.redirect_stderr(err):
